@@ -185,4 +185,4 @@ contract("decaylanguage.dec.dec.get_pythia_definitions", types={"parsed_file": "
                                          "forallv(lambda t, u: implies(dhas(d, t) and dhas(d, u) and t != u, not same(dget(d, t), dget(d, u))))"]
                                         + pythia_props("d", "_seq", "_i"),
                            "types": {"d": "dict"}}},
-         returns="dict", properties=[])   # WIP
+         returns="dict", properties=["C07"])
